@@ -1568,21 +1568,13 @@ class PhonopyConfParser(ConfParser):
 
         """
         self._settings = PhonopySettings(default=default_settings)
-        confs = {}
+        super().__init__(filename=filename, args=args)
         if filename is not None:
-            super().__init__(filename=filename)
             self.read_file()  # store .conf file setting in self._confs
-            self._parse_conf()  # self.parameters[key] = val
-            self._set_settings()  # self.parameters -> PhonopySettings
-            confs.update(self._confs)
         if args is not None:
-            # To invoke ConfParser.__init__() to flush variables.
-            super().__init__(args=args)
-            self._read_options()  # store options in self._confs
-            self._parse_conf()  # self.parameters[key] = val
-            self._set_settings()  # self.parameters -> PhonopySettings
-            confs.update(self._confs)
-        self._confs = confs
+            self._read_options()  # store options in self._confs (options supersede tags)
+        self._parse_conf()  # self.parameters[key] = val
+        self._set_settings()  # self.parameters -> PhonopySettings
 
     def _read_options(self):
         ConfParser.read_options(self)  # store data in self._confs
